@@ -136,14 +136,16 @@ def dupids(tier):
     for L in (60, 30):
         for alap in (False, True):
             for ef in _it.product((20, 40, 50, 90), repeat=3):
-                yield {"kind": "dupid", "L": L, "alap": alap, "ef": ef}
+                for deep in (False, True):
+                    yield {"kind": "dupid", "L": L, "alap": alap, "ef": ef, "deep": deep}
 
 
 def dupid_spec(it):
     e = it["ef"]
     leaf = lambda i, m: {"id": i, "effort": m, "alloc": ["r1"]}  # noqa: E731
     return {"res_min": it["L"] if it["L"] != 60 else None, "alap": it["alap"], "resources": [{"id": "r1"}],
-            "tasks": [{"id": "phase1", "children": [leaf("impl", e[0])]}, {"id": "phase2", "children": [leaf("impl", e[1])]}, leaf("wrap", e[2])]}
+            "tasks": [{"id": "phase1", "children": [leaf("impl", e[0])]},
+                      {"id": "phase2", "children": [leaf("impl", e[1])] if not it.get("deep") else [{"id": "sub", "children": [leaf("impl", e[1])]}]}, leaf("wrap", e[2])]}
 
 
 def frac_spec(it):
